@@ -19,21 +19,36 @@ COQ_TARGETS = ["Props/C16.vo", "Model/C16Harness.vo", "Model/C16Lines.vo", "Mode
 THEOREM_FILES = ["Props/C16.v"]
 COQ_IMPORTS = ("From Coq Require Import String.\nFrom Coq Require Import List ZArith Bool.\n"
                "From PV Require Import Base.Index Np.Array Model.Sparse Model.Repr Model.Harness Model.C16IO Model.C16Harness.\n")
-RULE = ("objects of the four kinds (np.ndarray as 2-way matrix and as 1-/3-/4-way array) with seeded random shapes (orders 1-5, singleton modes, 1-way; ranks 1-5, non-square "
+RULE = ("malformed stream (import side): valid files from an independent pure-Python writer, mutated 31 ways (wrong type word, "
+        "truncation, extra / missing tokens on header and entry lines, one-subscript entry, index_base too large / too small, "
+        "out-of-range subscript, values re-flowed over lines, blank lines, word among values, float subscript, trailing junk, "
+        "nnz / rank / column mismatches, dropped or replaced 'matrix' line, negative size, empty file); non-default fmt_data / "
+        "fmt_weights for all kinds; "
+        "objects of the four kinds (np.ndarray as 2-way matrix and as 1-/3-/4-way array) with seeded random shapes (orders 1-5, singleton modes, 1-way; ranks 1-5, non-square "
         "factors; C-, F- and non-contiguous matrices; sparse: empty/one/some/full, stored orders sorted/reversed/random, "
         "index bases -3..10); values = finite doubles over the whole exponent range (uniform bit patterns, subnormals, "
         "+-max, +-min normal, powers of two +-1 ulp, 17-significant-digit-critical constants, +-0), carried as 64-bit "
         "patterns; non-trivial = more than one value and not all values equal")
-CORRESPONDENCE_ONLY = []
-ASSUMPTIONS = [
-    "parse (print v) = v for every finite double v, where print is numpy tofile with format '%.16e' (libc printf) and "
-    "parse is numpy fromfile(sep=' ') / float(str): a Section hypothesis of every C16 theorem; tested bit-for-bit on "
-    "every double written by the correspondence stream (count in coverage.explanation)",
-    "a file is modelled as a list of lines of tokens (word | integer | number text); import works on the token "
-    "sequence (line breaks are not significant to np.fromfile; readline()-based reads are modelled as reading the "
-    "tokens of the line export wrote)",
+CORRESPONDENCE_ONLY = [
+    "export_data with non-default fmt_data / fmt_weights: proved is only that the layout does not depend on the format "
+    "(C16_format_layout) and that the round trip holds for every format with parse(print v) = v (the theorems are parametric in "
+    "print); that a coarser format gives back float(fmt % v) for every value is compared on real files",
+    "tokenisation of a file into lines of words / integer texts / number texts (Python str.split) and white space other than "
+    "single blanks and newlines",
 ]
-_STATS = {"doubles": 0, "files": 0, "text_mismatch": 0}
+ASSUMPTIONS = [
+    "parse (print v) = v for every finite double v, where print is numpy tofile with format '%.16e' (libc printf: 1 + 16 = 17 "
+    "significant decimal digits) and parse is numpy fromfile(sep=' ') / float(str) (strtod): a Section hypothesis of the round-trip "
+    "theorems. 17 significant digits suffice for binary64 (17 >= ceil(53*log10(2)) + 1: two distinct doubles never share a correctly "
+    "rounded 17-digit decimal, so a correctly rounded parse returns the double printed); 16 digits ('%.15e') do not. Correct rounding "
+    "of libc's printf/strtod is trusted and TESTED bit-for-bit on every double written by the correspondence stream (count in "
+    "coverage.explanation); the seeded '%.15e' mutant is detected by these cases",
+    "a file is modelled as a list of lines of tokens (word | integer text | number text). Two import models are tied to pyttb on "
+    "every real file: the token-sequence model (Model/C16IO.v, line breaks ignored) and the line-sensitive model "
+    "(Model/C16Lines.v: readline() for header / sparse entry lines, np.fromfile for values, which skips line breaks)",
+    "an integer text at a value position denotes the double float(text) (harness: exact bit pattern for |z| < 2^53)",
+]
+_STATS = {"doubles": 0, "files": 0, "text_mismatch": 0, "badfiles": 0, "badfiles_accepted": 0}
 EXPLANATION = ""
 
 
@@ -43,7 +58,9 @@ def _explain():
                    f"print->file->parse and were compared bit-for-bit (parse(print v)=v assumption tested on each); "
                    f"{_STATS['text_mismatch']} number texts differed from Python's '%.16e' rendering. The layout of "
                    "each real file is compared token by token, line by line, with the model's export in Coq; the "
-                   "model's import is run on the tokens of the real file and compared with pyttb's import_data result.")
+                   "model's import (token-level and line-sensitive) is run on the tokens of the real file and compared with "
+                   f"pyttb's import_data result. Malformed stream: {_STATS['badfiles']} mutated files, of which pyttb accepted "
+                   f"{_STATS['badfiles_accepted']}; the line-sensitive model gave pyttb's verdict (and object) on each.")
 
 
 _explain()
@@ -391,6 +408,8 @@ def run_impl(c):
                 fh.write("".join(" ".join(ln) + "\n" for ln in a["lines"]))
             lines = tokenize(open(path).read())
             o = {"lines": [[t[:2] for t in ln] for ln in lines]}
+            _STATS["badfiles"] += 1
+            _explain()
             try:
                 with warnings.catch_warnings():
                     warnings.simplefilter("ignore")          # np.fromfile's short-read DeprecationWarning
@@ -399,7 +418,8 @@ def run_impl(c):
                 o["exc"] = type(ex).__name__
                 o["msg"] = str(ex)[:200]
                 return o
-            _STATS["badfiles_accepted"] = _STATS.get("badfiles_accepted", 0) + 1
+            _STATS["badfiles_accepted"] += 1
+            _explain()
             o.update(_describe(np, ttb, got))
             return o
         if c.op == "tensor":
